@@ -17,12 +17,12 @@ def tsan_reports(text):
     return reps
 
 
-def run_one(rep, binary, prov, nthr, nops, repeats, seed, rd, label, tsan):
+def run_one(rep, binary, prov, nthr, nops, repeats, seed, rd, label, tsan, mode=None):
     env = dict(os.environ)
     env.update(vf.SAN_ENV)
     env["VH_CASE_FILE"] = os.path.join(rd, "%s.case" % label)
     env["TSAN_OPTIONS"] = "halt_on_error=0:exitcode=0:report_signal_unsafe=0:history_size=4"
-    p = subprocess.run([binary, "--arg1", str(prov), "--n", str(nops), "--arg2", "%d,%d" % (nthr, repeats), "--seed", str(seed)],
+    p = subprocess.run([binary, "--arg1", str(prov), "--n", str(nops), "--arg2", "%d,%d" % (nthr, repeats), "--seed", str(seed)] + (["--mode", mode] if mode else []),
                        capture_output=True, text=True, env=env, timeout=3400)
     open(os.path.join(rd, label + ".err"), "w").write(p.stderr)
     prov_name = ["openssl", "gnutls"][prov]
@@ -39,7 +39,9 @@ def run_one(rep, binary, prov, nthr, nops, repeats, seed, rd, label, tsan):
             rep.count("thread_operations", total); rep.count("overlapping_same_key_pairs", overlaps); rep.count("injected_yields", yields)
             rep.count("repeats")
             rep.distinct.add((label, prov, r, n))
-            if overlaps < total // 20:
+            if mode == "cold":
+                rep.count("cold_start_processes")
+            elif overlaps < total // 20:
                 rep.inconclusive.append("%s/%s repeat %d: only %d overlapping same-key pairs for %d operations" % (label, prov_name, r, overlaps, total))
         elif line.startswith('["X"'):
             _, t, i, kind, key, brc, grc, tokeq = json.loads(line)
@@ -85,6 +87,15 @@ def run(tier, seed, replay):
         run_one(rep, bt, prov, nthr, nops, repeats, seed, rd, "tsan-p%d" % prov, True)
     for prov in (0, 1):
         run_one(rep, ba, prov, nthr, nops, 1 if not thorough else 2, seed + 1, rd, "asan-p%d" % prov, False)
+    # cold starts: fresh processes whose worker threads make the very first sign/verify calls of the process (first-use initialisation
+    # in the library is raced); many short processes, TSan and plain builds
+    bp = vf.driver("d_c18", "plain", clock=True)
+    ncold = 40 if thorough else 8
+    jobs = [(bt, prov, "cold-tsan-p%d-%d" % (prov, i), True, seed * 100 + i) for prov in (0, 1) for i in range(ncold)] + \
+           [(bp, prov, "cold-plain-p%d-%d" % (prov, i), False, seed * 100 + 50 + i) for prov in (0, 1) for i in range(ncold)]
+    for b_, prov, label, ts_, sd in jobs:
+        run_one(rep, b_, prov, 18, 3, 1, sd, rd, label, ts_, mode="cold")
     rep.sample(dict(threads=nthr, ops_per_thread=nops, repeats=repeats, counters=dict(rep.counters)))
+    vf.need(rep, rep.counters.get("cold_start_processes", 0) >= 4 * ncold, "cold-start processes did not all complete")
     vf.need(rep, rep.counters.get("thread_operations", 0) >= nthr * nops * repeats * 2, "not all repeats completed")
     return rep
